@@ -2,8 +2,8 @@
    Statements only; proofs in Proofs/C08.v (codecs) and Proofs/C08_lines.v (lines, ids, alignment).
    The definitions are those of Model/C08.v, the same ones the correspondence evaluates on the
    numbers the implementation produced (harness/props/c08.py). *)
-From PV Require Import Lib.Base Lib.Round Model.C12 Model.C08 Proofs.C08 Proofs.C08_lines.
-From Coq Require Import QArith Qabs.
+From PV Require Import Lib.Base Lib.Round Model.C12 Model.C08 Proofs.C08 Proofs.C08_lines Proofs.C08_perf.
+From Coq Require Import QArith Qabs Sorting.Sorted Sorting.Permutation.
 #[local] Open Scope Z_scope.
 
 (* O3 position: beat + offset written by the exporter decode to the written position, in every
@@ -131,3 +131,114 @@ Theorem alignment_extract_inverse : forall a,
   alignment_of (validate (lines_of a)) = a.
 Proof. exact alignment_extract_inverse_lemma. Qed.
 Print Assumptions alignment_extract_inverse.
+
+(* ------------------------------------------------------------------ *)
+(* O2 performed notes over one leg  save_match(ppq, mpq) -> file -> load_match, for every note
+   (with or without stored ticks) and every clock: pitch and velocity are kept; the ticks of the
+   loaded note are the nearest ticks of the seconds GIVEN, in the clock asked of save_match; the
+   loaded seconds are those ticks in that clock, at most half a tick from the seconds given *)
+Theorem perf_leg : forall ppq mpq p, 0 < ppq -> 0 < mpq ->
+  let r := leg ppq mpq p in
+  let kon := sec_to_tick ppq mpq (p_on p) in
+  let koff := sec_to_tick ppq mpq (p_off p) in
+  p_pitch r = p_pitch p /\ p_vel r = p_vel p /\
+  p_stored r = Some (kon, koff) /\
+  p_on r = tick_to_sec ppq mpq kon /\ p_off r = tick_to_sec ppq mpq koff /\
+  (Qabs (inject_Z (1000000 * ppq) * p_on p / inject_Z mpq - inject_Z kon) <= 1 # 2)%Q /\
+  (Qabs (inject_Z (1000000 * ppq) * p_off p / inject_Z mpq - inject_Z koff) <= 1 # 2)%Q /\
+  (Qabs (p_on r - p_on p) <= half_tick ppq mpq)%Q /\
+  (Qabs (p_off r - p_off p) <= half_tick ppq mpq)%Q.
+Proof. exact leg_note_lemma. Qed.
+Print Assumptions perf_leg.
+
+(* ticks stored on a performed note (those of the clock it was loaded with) have no influence on
+   what is written *)
+Theorem perf_leg_ignores_stored_ticks : forall ppq mpq pi ve on off st st',
+  leg ppq mpq (mkP pi ve on off st) = leg ppq mpq (mkP pi ve on off st').
+Proof. exact leg_ignores_stored_lemma. Qed.
+Print Assumptions perf_leg_ignores_stored_ticks.
+
+Theorem ticks_monotone : forall ppq mpq t1 t2,
+  0 < ppq -> 0 < mpq -> (t1 <= t2)%Q -> sec_to_tick ppq mpq t1 <= sec_to_tick ppq mpq t2.
+Proof. exact sec_to_tick_mono. Qed.
+Print Assumptions ticks_monotone.
+
+(* a note never ends before it starts, in ticks and in seconds, whatever the clock *)
+Theorem perf_leg_order : forall ppq mpq p, 0 < ppq -> 0 < mpq -> (p_on p <= p_off p)%Q ->
+  sec_to_tick ppq mpq (p_on p) <= sec_to_tick ppq mpq (p_off p) /\
+  (p_on (leg ppq mpq p) <= p_off (leg ppq mpq p))%Q.
+Proof. exact leg_order_lemma. Qed.
+Print Assumptions perf_leg_order.
+
+(* saving what was loaded with the SAME clock changes nothing *)
+Theorem perf_leg_same_clock_fixpoint : forall ppq mpq p, 0 < ppq -> 0 < mpq ->
+  leg ppq mpq (leg ppq mpq p) = leg ppq mpq p.
+Proof. exact leg_fixpoint_lemma. Qed.
+Print Assumptions perf_leg_same_clock_fixpoint.
+
+(* saving what was loaded with ANOTHER clock: seconds stay within half a tick of each clock *)
+Theorem perf_two_legs_close : forall ppq1 mpq1 ppq2 mpq2 p,
+  0 < ppq1 -> 0 < mpq1 -> 0 < ppq2 -> 0 < mpq2 ->
+  let r := leg ppq2 mpq2 (leg ppq1 mpq1 p) in
+  (Qabs (p_on r - p_on p) <= half_tick ppq1 mpq1 + half_tick ppq2 mpq2)%Q /\
+  (Qabs (p_off r - p_off p) <= half_tick ppq1 mpq1 + half_tick ppq2 mpq2)%Q.
+Proof. exact two_legs_close_lemma. Qed.
+Print Assumptions perf_two_legs_close.
+
+Example perf_two_legs_nontrivial :
+  (* a note with stale ticks, saved with 1000/600000, loaded, saved with the default clock:
+     the second file holds the ticks of the default clock, not the stored ones *)
+  let p := mkP 60 64 (111 # 100) (154 # 100) (Some (7, 9)) in
+  let r1 := leg 1000 600000 p in
+  let r2 := leg 480 500000 r1 in
+  (p_stored r1, p_stored r2, Qeq_bool (p_on r2) (1066 # 960), Qeq_bool (p_off r2) (1479 # 960))
+  = (Some (1850, 2567), Some (1066, 1479), true, true).
+Proof. vm_compute. reflexivity. Qed.
+
+(* O2 pedals.  What is loaded for one controller (64 sustain, 67 soft) depends on that controller's
+   events only and is: ticks of the file's clock, stable order by tick, exact repetitions (same
+   tick and value = same line text) once, seconds of the file's clock *)
+Theorem pedal_per_controller : forall ppq mpq cs n, n = 64 \/ n = 67 ->
+  filter (cnum_is n) (ped_roundtrip ppq mpq cs)
+  = map (ped_sec ppq mpq) (ped_read (ped_lines ppq mpq (filter (cnum_is n) cs))).
+Proof. exact pedal_per_controller_lemma. Qed.
+Print Assumptions pedal_per_controller.
+
+Theorem pedal_only_pedals : forall ppq mpq cs c,
+  In c (ped_roundtrip ppq mpq cs) -> ctrl_num c = 64 \/ ctrl_num c = 67.
+Proof. exact pedal_only_pedals_lemma. Qed.
+Print Assumptions pedal_only_pedals.
+
+Theorem pedal_file_sorted : forall ppq mpq cs,
+  StronglySorted tick_le (ped_read (ped_lines ppq mpq cs)).
+Proof. exact pedal_file_sorted_lemma. Qed.
+Print Assumptions pedal_file_sorted.
+
+(* no event is lost and none invented: the pedal lines read from the file are exactly the
+   sustain/soft events given, at the nearest tick (ticks_nearest) *)
+Theorem pedal_events : forall ppq mpq cs e,
+  In e (ped_read (ped_lines ppq mpq cs)) <-> In e (flat_map (ped_of ppq mpq) cs).
+Proof. exact pedal_events_lemma. Qed.
+Print Assumptions pedal_events.
+
+Theorem pedal_event_of_control : forall ppq mpq n t v e cs,
+  In (n, t, v) cs -> n = 64 \/ n = 67 -> e = (n, sec_to_tick ppq mpq t, v) ->
+  In e (ped_read (ped_lines ppq mpq cs)).
+Proof. exact pedal_event_of_control_lemma. Qed.
+Print Assumptions pedal_event_of_control.
+
+Theorem pedal_no_repetition_permutation : forall ppq mpq cs,
+  NoDup (flat_map (ped_of ppq mpq) cs) ->
+  Permutation (flat_map (ped_of ppq mpq) cs) (ped_read (ped_lines ppq mpq cs)).
+Proof. exact pedal_perm_lemma. Qed.
+Print Assumptions pedal_no_repetition_permutation.
+
+Example pedal_nontrivial :
+  (* clock of one tick per second: events 0.4 s and 1.4 s apart fall on ticks 0 and 1; the two
+     sustain events at tick 1 keep their order; the repeated (tick 1, value 0) is one line; the
+     modulation wheel (1) is not a pedal; sustain first, then soft *)
+  map (fun c : ctrl => let '(n, t, v) := c in (n, Qnum t, v))
+      (ped_roundtrip 1 1000000 [(67, 14 # 10, 90); (64, 12 # 10, 127); (1, 5 # 10, 3); (64, 14 # 10, 0);
+                                (64, 4 # 10, 64); (64, 9 # 10, 0)])
+  = [(64, 0, 64); (64, 1000000, 127); (64, 1000000, 0); (67, 1000000, 90)].
+Proof. vm_compute. reflexivity. Qed.
